@@ -28,7 +28,7 @@ def make_copy(m):
     root = tempfile.mkdtemp(prefix="bvm-mut-")
     for name in ("behave", "docs", "tests", "pytest.ini", "conftest.py", "behave.ini", "setup.cfg", "pyproject.toml",
                  "behave4cmd0"):
-        src = os.path.join("/repo", name)
+        src = os.path.join(os.environ.get("BVM_MUT_SRC", "/repo"), name)
         if not os.path.exists(src):
             continue
         if name in ("tests", "behave4cmd0") and not m.get("_suite"):
@@ -45,7 +45,7 @@ def make_copy(m):
             s = f.read()
         if s.count(e["old"]) < 1:
             shutil.rmtree(root)
-            raise SystemExit("mutant %s: pattern not found in %s: %r" % (m["id"], e["file"], e["old"]))
+            raise LookupError("mutant %s: pattern not found in %s: %r" % (m["id"], e["file"], e["old"]))
         s = s.replace(e["old"], e["new"], e.get("count", 1))
         with open(path, "w") as f:
             f.write(s)
@@ -54,16 +54,22 @@ def make_copy(m):
 
 def run_one(m, tier, suite, seed):
     m = dict(m, _suite=suite)
-    root = make_copy(m)
     out = {"id": m["id"], "props": m["props"], "results": {}}
+    try:
+        root = make_copy(m)
+    except LookupError as ex:       # the source moved on: report as not caught (the catalogue must be kept current)
+        for pid in m["props"]:
+            out["results"][pid] = {"rc": -1, "violations": 0, "secs": 0.0, "slugs": [], "tail": ["STALE: %s" % ex]}
+        return out
     try:
         env = dict(os.environ, BVM_REPO=root, VERIF_JOBS=str(m.get("jobs", 4)), VERIF_SEED=str(seed))
         if suite:
-            p = subprocess.run(["/venv/bin/python", "-m", "pytest", "-q", "-p", "no:cacheprovider", "-x", "-q",
+            p = subprocess.run(["/venv/bin/python", "-m", "pytest", "-q", "-p", "no:cacheprovider",
                                 "--timeout=900", "tests"], cwd=root, capture_output=True, text=True,
                                env=dict(os.environ, PYTHONPATH=root))
             tail = p.stdout.strip().splitlines()[-1:] if p.stdout else []
-            out["suite"] = tail[0] if tail else "rc=%d" % p.returncode
+            line = tail[0] if tail else "rc=%d" % p.returncode
+            out["suite"] = "silent (1655 passed, the 13 known failures)" if ("1655 passed" in line and "13 failed" in line) else line.strip("= ")
         for pid in m["props"]:
             t0 = time.time()
             p = subprocess.run([os.path.join(VERIF, "check"), pid, "--tier", tier, "--no-evidence"],
@@ -86,6 +92,7 @@ def main():
     ap.add_argument("--jobs", type=int, default=4)
     ap.add_argument("--suite", action="store_true")
     ap.add_argument("--seed", type=int, default=0)
+    ap.add_argument("--out", help="write a JSON summary (id, props, caught, slugs, suite line) here")
     args = ap.parse_args()
     sel = MUTANTS
     if args.props:
@@ -95,17 +102,23 @@ def main():
         want = set(args.ids.split(","))
         sel = [m for m in sel if m["id"] in want]
     caught = missed = 0
+    summary = []
     with ThreadPoolExecutor(args.jobs) as ex:
         for res in ex.map(lambda m: run_one(m, args.tier, args.suite, args.seed), sel):
             for pid, r in res["results"].items():
                 ok = r["rc"] == 1 and r["violations"] > 0
                 caught += ok
+                summary.append({"id": res["id"], "property": pid, "caught": bool(ok), "tier": args.tier, "seed": args.seed,
+                                "slugs": [x.split(" ")[0].replace("slug=", "") for x in r["slugs"]], "suite": res.get("suite")})
                 missed += (not ok)
                 print("%-7s %-44s %s rc=%d %5.1fs %s %s" % (pid, res["id"], "CAUGHT" if ok else "MISSED", r["rc"],
                                                              r["secs"], res.get("suite", ""),
                                                              (r["slugs"][:1] if ok else r["tail"])))
                 sys.stdout.flush()
     print("caught=%d missed=%d" % (caught, missed))
+    if args.out:
+        with open(args.out, "w") as f:
+            json.dump({"source": "selftest/mutants.py", "caught": caught, "missed": missed, "mutants": summary}, f, indent=1)
     return 1 if missed else 0
 
 
